@@ -52,10 +52,18 @@ def build(case):
     ns = dict(ns_base)
     for j, node in enumerate(case["deps"]):
         ns[f"D{j}"] = deps[node]
-    params = ", ".join(["x: str"] + [f"d{j}: Annotated[Any, D{j}]" for j in range(len(case["deps"]))])
+    params = ", ".join(["x: str"] + [f"d{j}: Annotated[Any, D{j}]" for j in range(len(case["deps"]))] + (["**kw"] if case.get("collide") else []))
     src = f"async def actor({params}):\n    log['got'] = [{', '.join(f'd{j}' for j in range(len(case['deps'])))}]\n    log['x'] = x\n    return 1\n"
     exec(compile(src, "<actor>", "exec", dont_inherit=True), ns)  # noqa: S102
     return ns["actor"], deps, log
+
+
+def jsafe(o):
+    """an observed dependency value in the shape the providers return, [tag, [sub-values]]; anything else (an exception object
+    passed on as a value, a payload string ...) becomes a value with an impossible tag, so that the comparison fails cleanly"""
+    if isinstance(o, list) and len(o) == 2 and isinstance(o[0], str) and isinstance(o[1], list):
+        return [o[0], [jsafe(x) for x in o[1]]]
+    return ["!not-a-provider-value:" + type(o).__name__, []]
 
 
 async def _invoke(case):
@@ -70,9 +78,10 @@ async def _invoke(case):
     broker = InMemoryMessageBroker()
     conn = Connection(broker)
     key = broker.ROUTING_KEY_CLASS(id_="m1", topic="act", queue="default")
-    res = await _Processor(conn).actor_run(r.actors["act"], key, Parameters(), '{"x": "vx"}', conn)
+    payload = '{"x": "vx"}' if not case.get("collide") else '{"x": "vx", "d0": "from-payload", "other": 1}'
+    res = await _Processor(conn).actor_run(r.actors["act"], key, Parameters(), payload, conn)
     if res.success:
-        return {"fail": False, "vals": log.get("got"), "x": log.get("x"), "calls": log["calls"]}
+        return {"fail": False, "vals": [jsafe(v) for v in log.get("got", [])], "x": log.get("x"), "calls": log["calls"]}
     return {"fail": True, "vals": [], "exc": type(res.exception).__name__, "calls": log["calls"], "ran": "got" in log}
 
 
@@ -123,10 +132,19 @@ def run(tier: str, seed: int, replay=None) -> int:
                     ovs.append({"n": node, "tag": f"h{k}", "kids": nk, "sync": rng.random() < 0.3})
                 g = [{"tag": f"f{i + 1}", "kids": kids[i], "failing": failing == i + 1} for i in range(n)]
                 cases.append({"g": g, "deps": deps, "ovs": ovs, "sync": sync, "conv": rng.choice(["basic", "pydantic"])})
+                if rng.random() < 0.15:
+                    # the payload carries a key named like a dependency parameter (actor with **kwargs): the invocation is
+                    # refused, or the dependency parameter still receives its provider's value -- never the payload's
+                    cases.append(dict(cases[-1], conv="basic", collide=True))
             if len(cases) >= budget:
                 break
     with pool() as ex:
         gots = list(ex.map(_run, cases, chunksize=16))
+    # (a colliding payload that was refused is one of the two allowed outcomes: not compared with Expected)
+    keep = [k for k, (c, g) in enumerate(zip(cases, gots)) if not (c.get("collide") and g["fail"])]
+    ck.notes["colliding_payload_cases"] = sum(1 for c in cases if c.get("collide"))
+    cases = [cases[k] for k in keep]
+    gots = [gots[k] for k in keep]
     traces = [[{"g": c["g"], "deps": c["deps"], "ovs": [{"n": o["n"], "tag": o["tag"], "kids": o["kids"]} for o in c["ovs"]],
                 "got": {"fail": g["fail"], "vals": g["vals"]}}] for c, g in zip(cases, gots)]
     v = tlc.validate_traces("Trace_Deps", "Trace_Deps.cfg", traces, chunk=5000)
